@@ -76,10 +76,11 @@ def make_mask(rng, N, style, dtype="bool"):
         m[:, : N // 2] = True
     else:
         raise ValueError(style)
+    # "True / non-zero = ignore": segmentation labels, soft-edged and negative flags are masks too
     if dtype == "int":
-        return m.astype(int)
+        return m.astype(int) * rng.choice([1, 2, 7, -1], size=m.shape)
     if dtype == "float":
-        return m.astype(float) * 2.5
+        return m.astype(float) * rng.choice([2.5, 0.5, 1.0, -1.0], size=m.shape)
     return m
 
 
